@@ -581,6 +581,18 @@ def gen_config():
         flags["keyUtf8"] = False
 
     # is a failed recompile remembered as "already compiled"?  (checksum stored before compiling)
+    # the source is identified by a collision-resistant digest of its exact text
+    flags["checksumCollisionResistant"] = probe_in_child('''
+        import hashlib, io, contextlib
+        from pyab_experiment.experiment_evaluator import ExperimentEvaluator
+        t = 'def e {  return "a  b" weighted 1 } // \\u00e9'
+        with contextlib.redirect_stdout(io.StringIO()), contextlib.redirect_stderr(io.StringIO()):
+            ev = ExperimentEvaluator(t)
+        c = ev._checksum
+        b = t.encode("utf-8")
+        fam = [getattr(hashlib, n)(b) for n in ("md5", "sha1", "sha224", "sha256", "sha384", "sha512", "blake2b", "blake2s", "sha3_256", "sha3_512")]
+        print(any(c in (h.hexdigest(), h.digest()) for h in fam))
+    ''')
     flags["checksumEarly"] = not probe_in_child('''
         import io, contextlib
         from pyab_experiment.experiment_evaluator import ExperimentEvaluator
@@ -615,6 +627,7 @@ def gen_config():
             b(flags["strReprTerm"]), b(flags["strReprSalt"]), b(flags["dedupSig"]), b(flags["tupleRecursive"])),
         "def runCfg : RunCfg := ⟨genCfg, %s⟩" % b(flags["keyUtf8"]),
         "def checksumEarly : Bool := %s" % b(flags["checksumEarly"]),
+        "def checksumCollisionResistant : Bool := %s" % b(flags["checksumCollisionResistant"]),
         "",
         "end Pyab.Generated",
     ]
@@ -880,8 +893,27 @@ def gen_effects():
         publish_after_build = bool(pubs and builds and min(pubs) > max(builds))
     except Exception:  # noqa
         pass
-    # the generator object and code_holder are per call
-    gen_fresh = any(e[0] == "ExperimentEvaluator.recompile" and e[1] == "local" and e[2] == "code_holder" for e in effects)
+    # the namespace the generated code is exec'd into is a dict created in this very call (never an
+    # attribute, a module global or a parameter), and the globals argument is None or equally fresh
+    gen_fresh = False
+    try:
+        fn = ast.parse(textwrap.dedent(inspect.getsource(evmod.ExperimentEvaluator.recompile))).body[0]
+        fresh_locals = set()
+        for node in ast.walk(fn):
+            if isinstance(node, ast.Assign) and len(node.targets) == 1 and isinstance(node.targets[0], ast.Name):
+                v = node.value
+                if (isinstance(v, ast.Dict) and not v.keys) or (isinstance(v, ast.Call) and isinstance(v.func, ast.Name)
+                                                                and v.func.id == "dict" and not v.args and not v.keywords):
+                    fresh_locals.add(node.targets[0].id)
+                elif node.targets[0].id in fresh_locals:
+                    fresh_locals.discard(node.targets[0].id)       # re-bound to something else
+        execs = [n for n in ast.walk(fn) if isinstance(n, ast.Call) and isinstance(n.func, ast.Name) and n.func.id == "exec"]
+        def ok_ns(a):
+            return (isinstance(a, ast.Constant) and a.value is None) or (isinstance(a, ast.Name) and a.id in fresh_locals)
+        gen_fresh = bool(execs) and all(len(c.args) == 3 and ok_ns(c.args[1]) and isinstance(c.args[2], ast.Name)
+                                        and c.args[2].id in fresh_locals for c in execs)
+    except Exception:  # noqa
+        gen_fresh = False
 
     b = lambda x: "true" if x else "false"
     lines = [
